@@ -21,7 +21,8 @@ META = {
                   "envUnpickler; all 1023 non-empty key-difference sets through the real diffEnv. Record layer (test, not "
                   "proof): every truncation, sampled substitutions/deletions, field edits and stamp replacements of real record "
                   "files, re-loaded and built in a subprocess: outcome is a reported error, a re-execution, or up to date with a "
-                  "semantically identical record.",
+                  "record whose stamp is byte-identical to the current stamp (same dependency stamps, rerun clear); never a "
+                  "dead or hung process.",
     "level_note": "Trusted: Coq kernel; the transcription (validated by the correspondence run only); Go's recover semantics "
                   "(a runtime.Error satisfies the `failure` interface assertion) is validated on the real code by the "
                   "corrupted-input runs, not proved; big.Int.UnmarshalText is modelled in full (base prefixes, underscores); "
